@@ -354,8 +354,10 @@ impl ChunkDeserializer {
             self.current_header.timestamp.set(timestamp);
         } else if self.current_payload_data.len() == 0 {
             // Since we already added the MAX_INITIAL_TIMESTAMP to the timestamp, only add the delta difference
+            // (the extended value may be smaller than MAX_INITIAL_TIMESTAMP if the peer misbehaves, so
+            // the subtraction has to be done with the wrapping timestamp arithmetic)
             self.current_header.timestamp =
-                self.current_header.timestamp + (timestamp - MAX_INITIAL_TIMESTAMP);
+                self.current_header.timestamp + timestamp - MAX_INITIAL_TIMESTAMP;
         }
 
         self.current_stage = ParseStage::MessagePayload;
